@@ -155,6 +155,19 @@ type vfJoiner struct {
 }
 
 func (j *vfJoiner) settle() {
+	if j.svc != nil {
+		// activation of the account group ends with the device's own secret being published
+		idx := j.ms.Index().(*metadataStoreIndex)
+		for i := 0; ; i++ {
+			if sent, err := idx.areSecretsAlreadySent(j.acct.Member()); err == nil && sent {
+				break
+			}
+			if i > 600 {
+				vfInfra(" account group activation does not complete")
+			}
+			time.Sleep(50 * time.Millisecond)
+		}
+	}
 	last, same := j.ms.OpLog().Len(), 0
 	for i := 0; i < 200 && same < 8; i++ {
 		time.Sleep(50 * time.Millisecond)
